@@ -200,17 +200,18 @@ class ReMatch(object):
 def fold_regex_call(self, name, args, kwargs):
     """re.<fn>(constant...) folded, when the interpreter is asked to (fold_regex)"""
     import re
-    if not getattr(self, "fold_regex", False) or kwargs or not all(isinstance(a, (str, int)) for a in args):
+    if not getattr(self, "fold_regex", False) or not all(isinstance(a, (str, int)) for a in args) \
+            or not all(k_ in ("maxsplit", "count", "flags") and isinstance(v_, int) for k_, v_ in kwargs.items()):
         return KeyError
     fn = name.split(".")[-1]
     try:
         if fn == "compile":
-            return ReVal(*args)
+            return ReVal(*args, **kwargs)
         if fn in ("sub", "split", "findall", "escape"):
-            r = getattr(re, fn)(*args)
+            r = getattr(re, fn)(*args, **kwargs)
             return tuple(r) if isinstance(r, list) else r
         if fn in ("match", "search", "fullmatch"):
-            m = getattr(re, fn)(*args)
+            m = getattr(re, fn)(*args, **kwargs)
             return None if m is None else ReMatch(m)
     except re.error:
         return KeyError
